@@ -100,6 +100,12 @@ CHECKS = {
          'returned trajectories vs the design, round-trip through the integrator, and rest cases vs C^T Omega / -C^T g. Exploration.',
     note='Stated rounding floor for accelerations 128*ulp(6.4e6)/h^2 (double differentiation of inertial position inside the synthesiser).',
     design='DESIGN.md section 4, C03'),
+ 'C04': dict(
+    technique='property-based differential testing: measured sensitivity of the real integrator (central differences in the library error coordinates) vs the flow of the model matrices, per-block tolerances from a propagated neglected-term bound',
+    text='Generated operating points (low-speed stratum, |lat|<=80, both modes) x constant-rate/force increments x T in 0.1..2 s x dt in 2..10 ms: all 9/7 state directions and 6 sensor directions; every 3x3 block of the measured transition and input response must agree '
+         'with the product of exponentials of [F B;0 0]dt built from system_matrices within bound(neglected terms)+4*discretisation change+floor. A sign or factor error in any block is 10^2..10^8 x its tolerance in the stratum built for it. Exploration.',
+    note='Neglected-term forms and constants calibrated on the unchanged tree (1152 cases, margin >= 2..5x, recorded in the module); propagate_errors clause compares against the same perturbed integrations.',
+    design='DESIGN.md section 4, C04'),
 }
 NOT_YET = 'check not built yet in this session (planned, see DESIGN.md section 8); not claimed until its check exists'
 
